@@ -69,12 +69,15 @@ def gen(rng, tier):
         for key in keys:
             for v in txgen.BOUNDARY + [rng.randrange(2 ** 256) for _ in range(3)]:
                 group = (kind, key, v)
+                # one base document per group: only the spelling of the field under test varies
+                j, _ = txgen.rand_tx(rng, kind=kind, chain=1, spellings=["dec-str", "hex-str"], data_len=0, al_shape=[], to="addr")
+                if kind == "legacy" and key == "chainId" and v > (2 ** 256 - 37) // 2:
+                    continue
                 for sp in ["int", "float.0", "float-e", "dec-str", "hex-str"]:
                     if sp == "int" and v > 2 ** 64 - 1:
                         continue
                     if sp.startswith("float") and v >= 2 ** 53:
                         continue
-                    j, _ = txgen.rand_tx(rng, kind=kind, chain=(1 if key != "chainId" else None), spellings=["int"], data_len=0, al_shape=[], to="addr")
                     tok, _ = txgen.spell(rng, v, [sp])
                     j2 = replace_field(j, key, tok)
                     cases.append(Case("tx.parse " + hx(j2), tags=("spelling:" + sp, "kind:" + kind), meta={"group": (repr(group) if not (sp.startswith("float") and v >= 10 ** 15) else None), "field": key, "token": str(tok)}))
